@@ -233,6 +233,10 @@ class LibModel:
             m = getattr(self, f"obj_{f.kind}___call__", None)
             if m is not None:
                 return m(eng, st, f, args, kwargs, node)
+        if isinstance(f, Meth) and isinstance(f.recv, ZV) and f.recv.ty == 'node' and f.name in getattr(self, 'inline_gens', ()):
+            q = self.src.resolve_method(self.cls, f.name)
+            if q is not None:
+                return [(st, Obj('gen', {'qual': q, 'args': [f.recv] + list(args), 'kwargs': kwargs}))]
         # a method of the class under proof whose real body is executed in place
         if isinstance(f, Meth) and isinstance(f.recv, ZV) and f.recv.ty == 'node' and f.name in getattr(self, 'inline', ()):
             q = self.src.resolve_method(self.cls, f.name)
@@ -291,6 +295,14 @@ class LibModel:
             st = st.clone()
             return [(st, eng.new_dict(st))]
         return self.f_copy(eng, st, args, kwargs, node)
+
+    def f_list(self, eng, st, args, kwargs, node):
+        if not args:
+            return [(st, Lst([], eng.new_ref()))]
+        (o,) = args
+        if isinstance(o, (Lst, Tup)):
+            return [(st, Lst(list(o.items), eng.new_ref()))]
+        raise OutOfSubset(f"list({type(o).__name__})", node)
 
     def f_isinstance(self, eng, st, args, kwargs, node):
         o, cls = args
